@@ -371,7 +371,7 @@ pub fn run(args: &Args) -> Report {
     if rep.exhaustive {
         rep.obs("exhaustive_over", json!("all payload lengths 0..=7610 (command, channel and contents seeded); all merges of streams totalling <= 10 packets for the generated stream sets"));
     }
-    if only.is_none() && (rep.get("messages_round_tripped") == 0 || rep.get("merges_checked") == 0 || rep.get("refused_above_maximum") == 0) {
+    if only.is_none() && !miri && (rep.get("messages_round_tripped") == 0 || rep.get("merges_checked") == 0 || rep.get("refused_above_maximum") == 0) {
         rep.inconclusive("round trips, merges or refusals above the maximum were not observed".into());
     }
     rep
